@@ -163,29 +163,35 @@ impl Crypto {
         Ed25519KeyPair::from_seed_unchecked(&key).unwrap()
     }
 
+    /// Decodes the text form of a 32 byte key. The text form is a big number, so leading zero bytes of the key
+    /// are not represented and have to be restored.
+    fn parse_key_bytes(data: &str) -> Option<[u8; ED25519_PUBLIC_KEY_LEN]> {
+        let bytes = from_base62(data).ok()?;
+        if bytes.len() > ED25519_PUBLIC_KEY_LEN {
+            return None;
+        }
+        let mut result = [0; ED25519_PUBLIC_KEY_LEN];
+        result[ED25519_PUBLIC_KEY_LEN - bytes.len()..].clone_from_slice(&bytes);
+        Some(result)
+    }
+
     fn parse_keypair(privkey: &str, pubkey: &str) -> Result<Ed25519KeyPair, Error> {
-        let privkey = from_base62(privkey).map_err(|_| Error::InvalidConfig("Failed to parse private key"))?;
-        let pubkey = from_base62(pubkey).map_err(|_| Error::InvalidConfig("Failed to parse public key"))?;
+        let privkey = Self::parse_key_bytes(privkey).ok_or(Error::InvalidConfig("Failed to parse private key"))?;
+        let pubkey = Self::parse_key_bytes(pubkey).ok_or(Error::InvalidConfig("Failed to parse public key"))?;
         let keypair = Ed25519KeyPair::from_seed_and_public_key(&privkey, &pubkey)
             .map_err(|_| Error::InvalidConfig("Keys rejected by crypto library"))?;
         Ok(keypair)
     }
 
     fn parse_private_key(privkey: &str) -> Result<Ed25519KeyPair, Error> {
-        let privkey = from_base62(privkey).map_err(|_| Error::InvalidConfig("Failed to parse private key"))?;
+        let privkey = Self::parse_key_bytes(privkey).ok_or(Error::InvalidConfig("Failed to parse private key"))?;
         let keypair = Ed25519KeyPair::from_seed_unchecked(&privkey)
             .map_err(|_| Error::InvalidConfig("Key rejected by crypto library"))?;
         Ok(keypair)
     }
 
     fn parse_public_key(pubkey: &str) -> Result<Ed25519PublicKey, Error> {
-        let pubkey = from_base62(pubkey).map_err(|_| Error::InvalidConfig("Failed to parse public key"))?;
-        if pubkey.len() != ED25519_PUBLIC_KEY_LEN {
-            return Err(Error::InvalidConfig("Failed to parse public key"));
-        }
-        let mut result = [0; ED25519_PUBLIC_KEY_LEN];
-        result.clone_from_slice(&pubkey);
-        Ok(result)
+        Self::parse_key_bytes(pubkey).ok_or(Error::InvalidConfig("Failed to parse public key"))
     }
 
     pub fn public_key_from_private_key(privkey: &str) -> Result<String, Error> {
